@@ -216,3 +216,19 @@ check(
     "DESIGN.md section 3 C04",
     "gridlab",
 )
+
+ENGINES[-1 if ENGINES[-1]["name"] == "gridlab" else 2]["serves_properties"].append("C05")
+check(
+    "C05",
+    "exploration",
+    "For generated grids the harness follows the reference flux surface between consecutive grid points of every "
+    "surface (y-face -> centre -> y-face, all four locations, across region joins, along each region's own contours) "
+    "and compares the traced arc lengths with hy*dy, hy_ylow*dy, the increments and origin of poloidal_distance, its "
+    "continuity at joins and total_poloidal_distance (NaN pattern included); points must be in poloidal order; the same "
+    "descriptor at Nfine, 2 Nfine, 4 Nfine must converge quadratically.",
+    "Trusted base: reference interpolant + DOP853 traces at rtol 1e-11; tolerance from the traced turning in windows of "
+    "one FineContour spacing (chord-sum error), safety 20. Three scoped known findings (see known_findings.json).",
+    "generated-grid PBT with reference-trajectory oracle + metamorphic Nfine refinement",
+    "DESIGN.md section 3 C05",
+    "gridlab",
+)
